@@ -248,3 +248,67 @@ Theorem arc_bbox_translate a st by_ :
   ar_bbox (ar_translate a by_) = translate_rect (ar_bbox a) by_ /\
   ar_styled_bbox (ar_translate a by_) st = translate_rect (ar_styled_bbox a st) by_.
 Proof. split; [reflexivity|]. exact (offset_translate (ar_bbox a) by_ _). Qed.
+
+(* ---- the styled pixel sequences are strictly row-major: every pixel is written at most once --------- *)
+(* a flat_map whose function yields, for item t, at most one pixel located at key t keeps a strict order of the keys *)
+Lemma flat_map_sorted {A} (key : A -> point) (f : A -> list (point * Z)) l :
+  (forall t pc, In pc (f t) -> fst pc = key t) ->
+  (forall t, (length (f t) <= 1)%nat) ->
+  StronglySorted lt_yx (map key l) ->
+  StronglySorted lt_yx (map fst (flat_map f l)).
+Proof.
+  intros Hk Hl. induction l as [|t l IH]; cbn [map flat_map]; intros Hs; [constructor|].
+  inversion Hs as [|? ? Hs' Hall]; subst. specialize (IH Hs').
+  rewrite map_app.
+  assert (Hrest : Forall (lt_yx (key t)) (map fst (flat_map f l))).
+  { apply Forall_forall. intros q Hq. apply in_map_iff in Hq. destruct Hq as (pc & <- & Hpc).
+    apply in_flat_map in Hpc. destruct Hpc as (t' & Ht' & Hpc). rewrite (Hk t' pc Hpc).
+    rewrite Forall_forall in Hall. apply Hall. apply in_map. exact Ht'. }
+  specialize (Hl t). specialize (Hk t).
+  destruct (f t) as [|pc [|pc2 r]]; cbn [map app length] in *; [assumption| |lia].
+  constructor; [assumption|]. rewrite (Hk pc (or_introl eq_refl)). exact Hrest.
+Qed.
+
+Lemma se_styled_item_len ps ot it ti to_ bevel sc fc t :
+  (length (se_styled_item ps ot it ti to_ bevel sc fc t) <= 1)%nat.
+Proof.
+  destruct t as [[q dl] dist]. unfold se_styled_item.
+  repeat match goal with
+  | |- context [if ?b then _ else _] => destruct b
+  | |- context [match ?x with _ => _ end] => destruct x
+  end; cbn [length]; lia.
+Qed.
+
+Lemma distances_keys c : map (fun t => fst (fst t)) (sc_distances c) = points (sc_bbox c).
+Proof. unfold sc_distances. rewrite map_map. cbn [sm_dist_item fst]. apply map_id_ext. reflexivity. Qed.
+
+Theorem sector_styled_sorted s st bev :
+  0 <= stroke_width st -> rect_ok (se_styled_bbox s st) ->
+  StronglySorted lt_yx (map fst (se_styled_pixels s st bev)).
+Proof.
+  intros Hw Hok. unfold se_styled_pixels.
+  apply (flat_map_sorted (fun t => fst (fst t))).
+  - intros [[q dl] dist] [p c] H. apply se_styled_item_point in H. cbn [fst]. exact H.
+  - intros t. apply se_styled_item_len.
+  - destruct (negb (is_transparent st)); [|constructor].
+    rewrite distances_keys, se_stroke_area_bbox by exact Hw. apply points_sorted, Hok.
+Qed.
+
+Theorem arc_styled_sorted a st :
+  0 <= stroke_width st -> rect_ok (ar_styled_bbox a st) ->
+  StronglySorted lt_yx (map fst (ar_styled_pixels a st)).
+Proof.
+  intros Hw Hok. unfold ar_styled_pixels. destruct (stroke_color st) as [c0|]; [|constructor].
+  rewrite map_map. cbn [fst].
+  destruct (negb (is_transparent st)); [|constructor].
+  set (Q := ar_keep _ _ _).
+  (* filter keeps a sublist: sortedness of the keys is inherited *)
+  assert (G : forall l, StronglySorted lt_yx (map (fun t : point * point * Z => fst (fst t)) l) ->
+              StronglySorted lt_yx (map (fun t => fst (fst t)) (filter Q l))).
+  { induction l as [|t l IH]; cbn [map filter]; intros Hs; [constructor|].
+    inversion Hs as [|? ? Hs' Hall]; subst. destruct (Q t); cbn [map]; [|apply IH, Hs'].
+    constructor; [apply IH, Hs'|]. apply Forall_forall. intros q Hq. apply in_map_iff in Hq.
+    destruct Hq as (t' & <- & Ht'). apply filter_In in Ht'. rewrite Forall_forall in Hall. apply Hall.
+    apply (in_map (fun t : point * point * Z => fst (fst t))). apply Ht'. }
+  apply G. rewrite distances_keys, ar_stroke_area_bbox by exact Hw. apply points_sorted, Hok.
+Qed.
